@@ -26,9 +26,9 @@ def build(tier):
         Ob('O4-matescore', u, 'h_score', 'mate score stored at ply p1 and read at ply p2 is shifted by exactly p1-p2; non-mate scores unchanged; other fields untouched',
            unwind=2, functions=['TTEntry::setScore', 'TTEntry::getScore', 'SearchConst::isWinScore/isLoseScore'], bounds='p1,p2 in [0,200]; |score| <= 32000-p1'),
         Ob('O3-torn', ub, 'h_torn', 'probe on a bucket whose four slots each mix word0 of one stored unit with word1 of another never returns a blend: a hit returns data stored as one unit for the probed key',
-           unwind=6, functions=['TTEntry::store', 'TTEntry::load', 'TranspositionTable::probe', 'TranspositionTable::getIndex'],
-           bounds='4 slots x 2 symbolic units per slot, any torn/un-torn combination; 16-slot table, index function abstracted to its O1 contract; symbolic contempt hash and generation',
-           stubs=['std::atomic relaxed load/store = plain word access; the interleaving is the symbolic choice of source unit per word']),
+           unwind=33, functions=['TTEntry::store', 'TTEntry::load', 'TranspositionTable::probe', 'TranspositionTable::getIndex'],
+           bounds='4 slots x 2 symbolic units (older/newer store) per slot; every atomic load of a slot word is an independent event observing either store (read-read coherence respected), so double loads are covered; 16-slot table, index function abstracted to its O1 contract; symbolic contempt hash and generation',
+           stubs=['every relaxed 64-bit atomic load in probe -> verif_atomic_load64 event (harness hook, applied at IR level in CBMC and in the native replay build); stores are plain']),
         Ob('O5-insert', ub, 'h_insert', 'insert from an arbitrary bucket state: at most one slot written, neighbours untouched, written unit decodes to the inserted record, replacement policy (same key first, else least valuable, deeper exact same-key entry kept), probe afterwards hits',
            unwind=6, timeout=900, functions=FUNCS[2:5], bounds='arbitrary bucket contents (8 symbolic words); depth in [-8,511]; ply in [0,200]; type in {EXACT,GE,LE}; any move squares/promotion 0..12'),
         Ob('O5b-setbusy', ub, 'h_setbusy', 'setBusy re-stores the same unit with the busy flag', unwind=6, functions=FUNCS[2:5],
